@@ -373,6 +373,20 @@ func (s *vsStream) Send(op *longrunningpb.Operation) error {
 	} else if st == 2 {
 		rt.Cover("stream:executing")
 	}
+	// Send runs with the scheduler lock released: the worker may report
+	// completion right now, before the sender looks at the task again.
+	if r.sendRace && !r.sendRaced && st == 2 {
+		for _, w := range r.workers {
+			if w.desired != nil && !w.inFlight && rt.NondetBool("the worker completes while the update is being sent") {
+				r.sendRaced = true
+				r.inlineSync = true
+				r.sync(w, vsSyncCompletedOKPreferIdle)
+				r.inlineSync = false
+				rt.Cover("send:completed-during-send")
+				break
+			}
+		}
+	}
 	return nil
 }
 
@@ -405,6 +419,7 @@ const (
 	vsSyncCompletedFailed
 	vsSyncCompletedTimedOut
 	vsSyncWrongDigest
+	vsSyncCompletedOKPreferIdle // completes successfully and does not ask for more work
 )
 
 func vsIsSuccess(r *remoteexecution.ExecuteResponse) bool {
@@ -434,6 +449,9 @@ type vsRig struct {
 	maxBackground      int
 
 	authRace         bool // let timeouts expire inside the unlocked authorization windows
+	sendRace         bool // let the worker complete while an update is being sent (scheduler lock released)
+	sendRaced        bool
+	inlineSync       bool
 	inUnlockedWindow bool
 	opLastDetach map[string]time.Time // operation name -> when a stream last left it
 
@@ -685,7 +703,7 @@ func (r *vsRig) sync(w *vsWorker, kind int) {
 		InstanceNamePrefix: w.prefix,
 		Platform:           w.platform,
 		SizeClass:          w.sizeClass,
-		PreferBeingIdle:    kind == vsSyncIdlePreferIdle,
+		PreferBeingIdle:    kind == vsSyncIdlePreferIdle || kind == vsSyncCompletedOKPreferIdle,
 	}
 	var completed *remoteexecution.ExecuteResponse
 	switch kind {
@@ -720,7 +738,12 @@ func (r *vsRig) sync(w *vsWorker, kind int) {
 	w.inFlight = true
 	w.syncs++
 	ctx := w.ctx
-	rt.Go(func() {
+	run := rt.Go
+	if r.inlineSync {
+		// issued from inside another call's unlocked window (see vsStream.Send)
+		run = func(f func()) { f() }
+	}
+	run(func() {
 		var prevTask *task
 		prevRetry := w.rerequests // (counted by the harness, not read from the scheduler)
 		if ws := r.workerState(w); ws != nil && ws.currentTask != nil {
